@@ -360,6 +360,19 @@ func init() {
 	intercepts["math/rand.Int63n"] = randIntn
 	intercepts["math/rand.Int31n"] = randIntn
 	intercepts["math/rand/v2.IntN"] = randIntn
+	intercepts["maps.clone"] = func(it *Interp, fn *ssa.Function, args []Value) Value {
+		iv := args[0].(*IfaceV)
+		m, ok := iv.v.(*MapV)
+		if !ok {
+			panic(unsupported("maps.clone of non-map"))
+		}
+		if m.m == nil {
+			return iv
+		}
+		it.cellID++
+		n := &MapObj{id: it.cellID, entries: append([]mapEntry{}, m.m.entries...)}
+		return &IfaceV{t: iv.t, v: &MapV{m: n}}
+	}
 	intercepts["time.Sleep"] = noop
 	intercepts["runtime.SetFinalizer"] = noop
 	intercepts["math/bits.Len64"] = nil
